@@ -291,7 +291,6 @@ int e2e_member_as_int(JsonDocument& d, const char* k) { return d[k].as<int>(); }
 bool e2e_set_variant(JsonVariant dst, JsonVariantConst src) { return dst.set(src); }
 float e2e_as_float(JsonVariantConst v) { return v.as<float>(); }
 double e2e_as_double(JsonVariantConst v) { return v.as<double>(); }
-bool e2e_array_set(JsonArray dst, JsonArrayConst src) { return dst.set(src); }
 bool e2e_array_add_variant(JsonArray a, JsonVariantConst v) { return a.add(v); }
 bool e2e_array_add_int(JsonArray a, int v) { return a.add(v); }
 bool e2e_element_set_cstr(JsonDocument& d, size_t i, const char* s) { return d[i].set(s); }
